@@ -35,6 +35,21 @@ CHECKS = {
             "Seeded histories of tx arrivals (incl. repeats), reaps, productions, restarts and kills with queue bound 1..8; one marked reap or production has every durable-write boundary enumerated as crash point; after a drain every distinct transaction the mempool ever handed to the node must be in a committed block, non-empty blocks must follow the sequencer's release order, and without crashes nothing is included more often than injected.",
             "Mempool is the execution double (non-draining GetTxs per interface contract). Two crash boundaries that lose a batch are genuine, unrepaired defects listed in known_findings.json.",
             "DESIGN.md §5 C11", "stepsim"),
+    "C06": ("exploration",
+            "deterministic simulation: real submission loops in a synctest bubble against a simulated DA with scripted outcome sequences, restarts/kills/crashes between attempts; ledger oracle over the DA call log and the persisted watermarks; bounded liveness after faults stop",
+            "Seeded production histories (empty/non-empty, initial height 1..50) with scripted DA outcomes (12 kinds incl. partial acceptance, lost acknowledgement, blocking, node death before/after the DA stored the blobs), the real header/data submission loops run for windows of simulated time, clean restarts, kills and crashes cutting the watermark write. Every submit call must carry exactly the committed, proposer-signed headers/non-empty data in height order starting above the persisted watermark and never past an unaccepted height; watermarks must be monotone and sound; after faults stop everything must reach DA. Sampling, not proof.",
+            "DA is simulated; a loop cancelled at the end of its window is treated as one that gave up early.",
+            "DESIGN.md §5 C06", "stepsim"),
+    "C07": ("exploration",
+            "deterministic simulation: real DA-includer, submission, retrieve and sync loops scheduled by the harness; DA faults, clean restarts, kills and crashes inside inclusion runs; oracle over DA log, finalize log and disk; bounded liveness",
+            "Aggregator and follower roles. After every operation the reported/persisted DA-included height must be monotone (also across restarts), at most the chain height, preceded by finalize calls 1,2,3,... (repeat only by a later incarnation), backed by blobs accepted by (aggregator) or fetched from (follower) the DA layer, and the recorded DA heights must hold the blobs; after faults stop the height must be reached within a small budget. Sampling, not proof.",
+            "Initial height 1. Three genuine, unrepaired defects are listed in known_findings.json (aggregator marks lost on crash; data marks keyed by commitment only).",
+            "DESIGN.md §5 C07", "stepsim"),
+    "C08": ("exploration",
+            "deterministic simulation: real aggregator with pending limit, real submission loops, simulated DA outages of finite length; refusal-legality oracle against the DA ledger; bounded liveness with an accepting DA",
+            "Seeded histories with limit 1..8, initial height 1..50, all-empty/mixed/all-non-empty chains and finite DA outages. A production step that declines is legal only while at least `limit` committed blocks still wait for DA acceptance (header or non-empty data); with an accepting DA every round must commit a block. Sampling, not proof.",
+            "Only outages are injected so that accepted and acknowledged coincide.",
+            "DESIGN.md §5 C08", "stepsim"),
     "C10": ("exploration",
             "deterministic simulation: seeded submit/next/restart/crash histories on the real single sequencer over a simulated journalled disk vs a FIFO model; porcupine linearizability check of concurrent histories",
             "Seeded histories (identical contents, empty, foreign chain id, beyond the bound, restart = new sequencer on the durable image, crash cutting the durable write inside an operation) are checked operation by operation against a FIFO model with candidate sets for undetermined operations, "
